@@ -4,7 +4,13 @@ from .gbase import GProp, pfields, mk_case, run_result
 from . import C07 as c07mod
 
 def gen_wrapped(r):
-    k = r.below(17)
+    k = r.below(19)
+    if k >= 17:
+        # a capture nested in the wrapped parser whose own parser consumes nothing (it only looks ahead): the outer capture ends
+        # with the last token consumed, whatever follows the filtered tokens behind it (a token, unrecognised text, the end)
+        inner = r.choice([['maybe', ['one', 'B']], ['cond', 'F', ['one', 'A']], 'empty', ['repeat', 0, 'inf', ['one', 'C']], ['seqcount', 'B']])
+        return r.choice([['both', ['one', 'A'], [r.choice(['text', 'spanned']), inner]], ['both', ['seq', 'A', 'B'], ['both', [r.choice(['text', 'spanned']), inner], ['maybe', ['one', 'C']]]],
+                         ['right', ['maybe', ['one', 'B']], ['both', ['one', 'A'], ['upto', inner, ['Comma']]]]])
     if k == 14:
         # the other members of the C07 family: count / until variants, separators
         return c07mod.gen_rep(r, 1 + r.below(2))
